@@ -23,7 +23,7 @@ CORR_HEADER = ("From Coq Require Import ZArith QArith List String.\n"
                "From ACN Require Import Base.Num Model.Current Model.Network.\nImport ListNotations.\n"
                "Open Scope string_scope.\nOpen Scope Q_scope.\n")
 CHECK_FN = "check_c12"
-SHARD = 60
+SHARD = 100
 F = fractions.Fraction
 KNOWN_SIG_INPLACE = "inplace-sum-cut-to-left-index"
 
@@ -498,7 +498,7 @@ def gen_ops(rng):
     return ops
 
 
-def make_case(ops, mode=None):
+def make_case(ops, mode=None, shrink_ok=False):
     mode = mode or inplace_mode()
     obs = run_impl(ops)
     inp = dict(ops=ops, mode=mode)
@@ -509,12 +509,28 @@ def make_case(ops, mode=None):
     case["kind"] = "seq/%s" % ("+".join(e[:5] for e in errs) if errs else "clean")
     case["nontrivial"] = nadds > 0
     case["sig"] = KNOWN_SIG_INPLACE if (why and why.startswith(KNOWN_SIG_INPLACE)) else ops
+    if why and not why.startswith(KNOWN_SIG_INPLACE) and shrink_ok:
+        # the property fails on the implementation: keep a minimised operation list for the replay file
+        try:
+            inp["shrunk_ops"] = shrink(ops, lambda cand: _fails(cand, mode))
+        except Exception:  # noqa
+            pass
     return case
+
+
+def _fails(ops, mode):
+    r = monitor(dict(input=dict(ops=ops, mode=mode), impl=run_impl(ops)))
+    return bool(r) and not r.startswith(KNOWN_SIG_INPLACE)
 
 
 def gen_cases(rng, n, tier):
     mode = inplace_mode()
-    return [make_case(gen_ops(rng), mode) for _ in range(n)]
+    out, shrunk = [], 0
+    for _ in range(n):
+        c = make_case(gen_ops(rng), mode, shrink_ok=shrunk < 1)
+        shrunk += 1 if "shrunk_ops" in c["input"] else 0
+        out.append(c)
+    return out
 
 
 # ---------------------------------------------------------------------------------------------
@@ -556,8 +572,12 @@ def extra_streams(rng, tier):
 # ---------------------------------------------------------------------------------------------
 # implementation-level monitor (the property, stated on what the implementation showed)
 # ---------------------------------------------------------------------------------------------
+def finite(x):
+    return x is not None and not (isinstance(x, float) and (math.isnan(x) or math.isinf(x)))
+
+
 def close(a, b):
-    if a is None or b is None:
+    if not finite(a) or not finite(b):
         return False
     a, b = F(a), F(b)
     return abs(a - b) <= F(1, 10**9) * max(1, abs(a))
@@ -569,6 +589,9 @@ def check_algebra(e, items):
     got = {k: v for k, v in items}
     if len(got) != len(items):
         return "Current index has duplicate stations"
+    nonfin = [k for k, v in items if not finite(v)]
+    if nonfin:
+        return "coefficient of %s in the Current is %r, the algebra gives %s" % (nonfin[0], got[nonfin[0]], want.get(nonfin[0], F(0)))
     bad = [s for s in set(want) | set(got)
            if not close(want.get(s, F(0)), got.get(s, 0.0))]
     if bad:
@@ -744,8 +767,7 @@ def search(rng, budget_s, broken):
     mode = inplace_mode()
 
     def fails(ops):
-        r = monitor(dict(input=dict(ops=ops, mode=mode), impl=run_impl(ops)))
-        return bool(r) and not r.startswith(KNOWN_SIG_INPLACE)
+        return _fails(ops, mode)
 
     while time.time() - t0 < budget_s:
         for _ in range(40):
@@ -769,8 +791,9 @@ def replay(w):
     if "expr" in inp:
         c = make_alg_case(inp["expr"], inplace_mode())
         return monitor(c)
-    obs = run_impl(inp["ops"])
-    return monitor(dict(input=dict(ops=inp["ops"], mode=inplace_mode()), impl=obs))
+    ops = inp.get("shrunk_ops") or inp["ops"]
+    obs = run_impl(ops)
+    return monitor(dict(input=dict(ops=ops, mode=inplace_mode()), impl=obs))
 
 
 def replay_known(entry):
